@@ -399,6 +399,125 @@ def check_max(prog: Program, res: Result) -> None:
     res.floor(R, 6)
 
 
+def check_count(prog: Program, res: Result) -> None:
+    """process_lf returns the keypoints as a NaN-padded tensor plus `num_instances`; every consumer takes the first
+    `num_instances` rows as the labelled animals (generate_multiconfmaps, the DataPipe generators, the chunk writer's
+    instance counter).  So `num_instances` must be the number of rows the tensor had BEFORE padding: a count over the same
+    collection that was stacked (its shape along the instance axis, or len of the stacked list).  A count taken any other
+    way (e.g. of the non-empty instances while all are stacked) cuts a labelled animal out of the targets.
+    Decided by a small forward walk over the function body: lists, tensors stacked from a list (with the axis the rows are
+    on), counts of a list."""
+    for q in ("sleap_nn.data.providers:process_lf", "sleap_nn.data.providers:LabelsReaderDP.__iter__"):
+        _check_count_in(prog, res, prog.func(q))
+    res.floor("C01-count", 4)
+
+
+def _check_count_in(prog: Program, res: Result, fi) -> None:
+    R = "C01-count"
+    res.touch(fi)
+    fn = fi.node
+    rets = [r for r in walk_function(fn) if (isinstance(r, ast.Return) or isinstance(r, ast.Yield)) and r.value is not None]
+    rec = astq.record_fields(fn, rets[0].value) if len(rets) == 1 else None
+    ok_shape = rec is not None and "num_instances" in rec and "instances" in rec
+    res.ob(R, ok_shape, fi.qualname, f"{fi.name} hands out instances and num_instances", f"{fi.name} no longer hands out a record with `instances` and `num_instances`", fi.where)
+    if not ok_shape:
+        return
+    state = {}   # name -> ("list", id) | ("rows", id, axis) | ("count", id)
+    fresh = [0]
+
+    def new_id():
+        fresh[0] += 1
+        return fresh[0]
+
+    def val(e):
+        """abstract value of an expression"""
+        if isinstance(e, ast.Name):
+            return state.get(e.id)
+        if isinstance(e, (ast.List, ast.ListComp)) or (isinstance(e, ast.Call) and norm(e.func) == "list" and len(e.args) <= 1):
+            return ("list", new_id())
+        if isinstance(e, ast.Call):
+            f = norm(e.func).split(".")[-1]
+            recv = e.func.value if isinstance(e.func, ast.Attribute) and norm(e.func.value) not in ("np", "numpy", "torch") else None
+            a0 = recv if recv is not None else (e.args[0] if e.args else None)
+            v0 = val(a0) if a0 is not None else None
+            if f == "stack" and v0 is not None and v0[0] == "list":
+                ax_ = astq.call_arg(e, 1, "axis") or astq.call_arg(e, 1, "dim")
+                ax = astq.const_value(ax_) if ax_ is not None else 0
+                return ("rows", v0[1], ax) if ax == 0 else None
+            if f in ("expand_dims", "unsqueeze") and v0 is not None and v0[0] == "rows":
+                ax_ = (e.args[0] if recv is not None and e.args else astq.call_arg(e, 1, "axis")) or astq.call_arg(e, 1, "dim") or next((k.value for k in e.keywords if k.arg in ("axis", "dim")), None)
+                ax = astq.const_value(ax_) if ax_ is not None else None
+                return ("rows", v0[1], v0[2] + 1) if ax == 0 else None
+            if f in ("from_numpy", "as_tensor", "tensor", "astype", "float", "to", "type", "clone", "copy", "contiguous", "array", "asarray") and v0 is not None and v0[0] == "rows":
+                return v0
+            if f in ("cat", "concat", "concatenate") and e.args and isinstance(e.args[0], (ast.List, ast.Tuple)) and e.args[0].elts:
+                h = val(e.args[0].elts[0])
+                ax_ = astq.call_arg(e, 1, "dim") or astq.call_arg(e, 1, "axis")
+                if h is not None and h[0] == "rows" and ax_ is not None and astq.const_value(ax_) == h[2]:
+                    return h       # padding appended after the labelled rows, on the row axis
+                return None
+            if f == "len" and e.args and isinstance(e.func, ast.Name):
+                v = val(e.args[0])
+                if v is not None and v[0] == "list":
+                    return ("count", v[1])
+                if v is not None and v[0] == "rows" and v[2] == 0:
+                    return ("count", v[1])
+            if f == "size" and recv is not None and v0 is not None and v0[0] == "rows" and len(e.args) == 1 and astq.const_value(e.args[0]) == v0[2]:
+                return ("count", v0[1])
+            return None
+        if isinstance(e, ast.Subscript) and isinstance(e.value, ast.Attribute) and e.value.attr == "shape":
+            v = val(e.value.value)
+            if v is not None and v[0] == "rows" and astq.const_value(e.slice) == v[2]:
+                return ("count", v[1])
+            return None
+        return None
+
+    def shape_slice(e):
+        """(rows value, first axis of the slice) for  T.shape[a:b]"""
+        if isinstance(e, ast.Subscript) and isinstance(e.value, ast.Attribute) and e.value.attr == "shape" and isinstance(e.slice, ast.Slice):
+            lo = astq.const_value(e.slice.lower) if e.slice.lower is not None else 0
+            v = val(e.value.value)
+            if v is not None and v[0] == "rows" and isinstance(lo, int):
+                return v, lo
+        if isinstance(e, ast.Attribute) and e.attr == "shape":
+            v = val(e.value)
+            if v is not None and v[0] == "rows":
+                return v, 0
+        return None
+
+    def run(stmts):
+        for st in stmts:
+            if isinstance(st, ast.Assign) and len(st.targets) == 1:
+                t = st.targets[0]
+                if isinstance(t, ast.Name):
+                    v = val(st.value)
+                    if v is None:
+                        state.pop(t.id, None)
+                    else:
+                        state[t.id] = v
+                elif isinstance(t, (ast.Tuple, ast.List)):
+                    ss = shape_slice(st.value)
+                    for k, e in enumerate(t.elts):
+                        if isinstance(e, ast.Name):
+                            if ss is not None and ss[1] + k == ss[0][2]:
+                                state[e.id] = ("count", ss[0][1])
+                            else:
+                                state.pop(e.id, None)
+            elif isinstance(st, ast.AugAssign) and isinstance(st.target, ast.Name):
+                state.pop(st.target.id, None)
+            for fld in ("body", "orelse", "finalbody"):
+                blk = getattr(st, fld, None)
+                if isinstance(blk, list) and not isinstance(st, (ast.FunctionDef, ast.ClassDef)):
+                    run(blk)
+
+    run(fn.body)
+    vi, vn = val(rec["instances"]), val(rec["num_instances"])
+    ok = vi is not None and vi[0] == "rows" and vn is not None and vn[0] == "count" and vn[1] == vi[1]
+    res.ob(R, ok, fi.qualname, "num_instances = number of rows of the instances tensor before padding",
+           f"{fi.name} hands out num_instances = `{short(astq.expand(fn, rec['num_instances']), 60)}`, which is not the row count of the collection stacked into `instances`: consumers take "
+           "the first num_instances rows as the labelled animals, so a labelled animal is cut from (or padding is drawn into) the targets", fi.where)
+
+
 def check(prog: Program, res: Result) -> None:
     from . import _batch
     _batch.check_every_iteration_accumulates(prog, res, "C01-max", ["sleap_nn.data.confidence_maps:make_multi_confmaps"])
@@ -411,6 +530,9 @@ def check(prog: Program, res: Result) -> None:
     check_sigma(prog, res)
     check_grid(prog, res)
     check_max(prog, res)
+    check_count(prog, res)
+    from . import _reshape
+    _reshape.check_merge_split_order(prog, res, "C01-reshape", ["sleap_nn.data."])
     res.assumptions += ["sigma > 0 and output_stride > 0", "the exact Gaussian value, 'largest at the nearest cell' and the output shape arithmetic are not decided"]
 
 
